@@ -125,8 +125,26 @@ impl Drop for Watcher {
     }
 }
 
+/// A *final* name is one that the restart-time readers take for a complete object: `<64 hex>.mdb` (shard directory
+/// loader), `<prefix>.<64 hex>` (local xorb store), a well-formed cache item name (cache scan). Everything else in
+/// these directories is a temporary or foreign file that they ignore or clean up — whatever it is called.
+fn is_final_name(name: &str) -> bool {
+    let hex64 = |s: &str| s.len() == 64 && s.bytes().all(|b| b.is_ascii_hexdigit());
+    if let Some(stem) = name.strip_suffix(".mdb") {
+        if hex64(stem) {
+            return true;
+        }
+    }
+    if let Some((prefix, h)) = name.rsplit_once('.') {
+        if !prefix.is_empty() && !prefix.contains('.') && hex64(h) {
+            return true;
+        }
+    }
+    parse_item_name(name).is_some()
+}
+
 fn is_temp_name(name: &str) -> bool {
-    name.starts_with('.')
+    !is_final_name(name)
 }
 
 /// Protocol rule on the kernel's event sequence: final (non-temp) file names appear only through rename and are
@@ -450,7 +468,7 @@ fn temp_prefix_variants(snap: &Path, base: &Path, tag: usize) -> Vec<PathBuf> {
                 let p = e.path();
                 if p.is_dir() {
                     walk(&p, out);
-                } else if e.file_name().to_string_lossy().starts_with('.') && !p.to_string_lossy().contains("global_dedup") {
+                } else if is_temp_name(&e.file_name().to_string_lossy()) && !p.to_string_lossy().contains("global_dedup") {
                     out.push(p);
                 }
             }
@@ -1090,7 +1108,7 @@ impl Engine for CrashEngine {
     fn assumptions(&self, _focus: &str) -> Vec<String> {
         vec![
             "Crash model as in the property: completed system calls persist, user-space buffered data is lost, no torn page cache; states are taken at library-level points between file-system effects, not at individual write(2) calls (prefix variants of temp files cover the states in between).".into(),
-            "The inotify protocol rule treats names starting with '.' as temporary (SafeFileCreator and shard temp names).".into(),
+            "A name counts as final when a restart-time reader would take it for a complete object (<64 hex>.mdb, <prefix>.<64 hex>, a well-formed cache item name); every other name in these directories is treated as temporary, whatever its spelling.".into(),
         ]
     }
 }
